@@ -390,7 +390,8 @@ def r18_rec_state(ctx):
             rep.check(good, rule, key + ":single-point", it.loc(),
                       "a single-point recurrence yields its anchor at most "
                       "once and then stops",
-                      "single-point state yields %s" % sorted(seqs), P12)
+                      "single-point state yields %s" % sorted(seqs),
+                      P12 + ("C19", "C13", "C14"))
             continue
         # direction and stepping
         dirs = {(m, rv) for m, rv in p.steps}
@@ -946,45 +947,102 @@ def r19_rec_bounds(ctx):
         rep.check(bool(eqs), rule, ctx.fkey(f, None, "membership-eq"),
                   f.loc(), "membership is equality with an iterated point",
                   "get_is_valid no longer tests `iterated == probe`", P13)
-        # early exits
-        want = {"_start_point": ast.Lt, "_end_point": ast.Gt}
-        for st in the_loop.body:
-            if not (isinstance(st, ast.If) and isinstance(
-                    st.test, ast.BoolOp) and isinstance(st.test.op, ast.And)):
-                continue
-            slot = None
-            cmpn = None
-            for v in st.test.values:
-                if isinstance(v, ast.Compare) and isinstance(
-                        v.ops[0], ast.Is) and U(v.comparators[0]) == "None" \
-                        and isinstance(v.left, ast.Attribute):
-                    slot = v.left.attr
-                elif isinstance(v, ast.Compare) and isinstance(
-                        v.ops[0], (ast.Lt, ast.Gt, ast.LtE, ast.GtE)):
-                    cmpn = v
-            if slot is None or cmpn is None or slot not in want:
-                continue
-            a, b = U(cmpn.left), U(cmpn.comparators[0])
-            op = type(cmpn.ops[0])
-            if a == probe and b == loopvar:
-                op = {ast.Lt: ast.Gt, ast.Gt: ast.Lt, ast.LtE: ast.GtE,
-                      ast.GtE: ast.LtE}[op]
-            rets_false = all(isinstance(x, ast.Return) and
-                             U(x.value) == "False" for x in st.body)
-            rep.check(
-                op is want[slot] and rets_false, rule,
-                ctx.fkey(f, None, "early-exit:" + slot), f.loc(st),
-                "early exit under `%s is None` tests iterated %s probe, the "
-                "direction __iter__ walks in that case" % (
-                    slot, "<" if want[slot] is ast.Lt else ">"),
-                "early exit under `%s is None` tests `%s`: iteration walks "
-                "%s there, so members %s the probe are skipped or the scan "
-                "never ends" % (
-                    slot, U(cmpn),
-                    "backwards from the end" if slot == "_start_point"
-                    else "forwards without end",
-                    "before" if slot == "_start_point" else "after"),
-                P13)
+        # early exits: a `return False` inside the scan is justified only
+        # by the direction __iter__ walks in - backwards from the end when
+        # there is no start point (iterated < probe: all later ones are
+        # earlier still), forwards otherwise (iterated > probe)
+        from ..flow import path_conds as _pc
+        sn = f.self_name
 
+        def dnf(conds):
+            """conjunction of (test, polarity) -> list of disjuncts, each a
+            list of (atom, polarity); None when too wide"""
+            def one(t, pol):
+                if isinstance(t, ast.UnaryOp) and isinstance(t.op, ast.Not):
+                    return one(t.operand, not pol)
+                if isinstance(t, ast.BoolOp):
+                    parts = [one(v, pol) for v in t.values]
+                    if isinstance(t.op, ast.And) == pol:
+                        out = [[]]
+                        for ps in parts:
+                            out = [a + b for a in out for b in ps]
+                            if len(out) > 32:
+                                raise OverflowError
+                        return out
+                    return [d for ps in parts for d in ps]
+                return [[(t, pol)]]
+            out = [[]]
+            try:
+                for t, pol in conds:
+                    out = [a + b for a in out for b in one(t, pol)]
+                    if len(out) > 32:
+                        return None
+            except OverflowError:
+                return None
+            return out
+
+        def justified(disj):
+            dirs, none = set(), {}
+            for t, pol in disj:
+                if not (isinstance(t, ast.Compare) and len(t.ops) == 1):
+                    continue
+                a, b = U(t.left), U(t.comparators[0])
+                op = type(t.ops[0])
+                if op in (ast.Is, ast.IsNot) and b == "None" and isinstance(
+                        t.left, ast.Attribute) and U(t.left.value) == sn:
+                    none[t.left.attr] = (op is ast.Is) == pol
+                elif {a, b} == {loopvar, probe} and op in (
+                        ast.Lt, ast.Gt, ast.LtE, ast.GtE):
+                    if not pol:
+                        op = {ast.Lt: ast.GtE, ast.Gt: ast.LtE,
+                              ast.LtE: ast.Gt, ast.GtE: ast.Lt}[op]
+                    if a == probe:
+                        op = {ast.Lt: ast.Gt, ast.Gt: ast.Lt,
+                              ast.LtE: ast.GtE, ast.GtE: ast.LtE}[op]
+                    dirs.add(op)
+            if ast.Lt in dirs and none.get("_start_point") is True:
+                return True
+            if ast.Gt in dirs and (none.get("_end_point") is True or
+                                   none.get("_start_point") is False):
+                return True
+            return False
+        n_exits = 0
+        for r in ast.walk(the_loop):
+            if not (isinstance(r, ast.Return) and U(r.value) == "False"):
+                continue
+            n_exits += 1
+            conds = _pc(r, stop=the_loop)
+            ds = dnf(conds)
+            txt = " and ".join(("" if pol else "not ") + "(%s)" % U(t)
+                               for t, pol in conds)[:120]
+            inner = U(conds[0][0]) if conds else ""
+            slot = "_start_point" if "_start_point" in inner else (
+                "_end_point" if "_end_point" in inner else "other")
+            key = ctx.fkey(f, None, "early-exit:" + slot)
+            if ds is None:
+                rep.undecided(rule, key, f.loc(r), "the condition of the "
+                              "early exit is too wide to be read", P13)
+                continue
+            bad = [d for d in ds if not justified(d)]
+            rep.check(
+                not bad, rule, key, f.loc(r),
+                "the scan gives up only where the direction of iteration "
+                "puts every later point further from the probe",
+                "get_is_valid returns False from inside the scan under "
+                "`%s`, which holds e.g. when only `%s` does: a scan may "
+                "give up only on iterated < probe when there is no start "
+                "point (iteration walks backwards from the end) and on "
+                "iterated > probe when there is no end point (it walks "
+                "forwards); otherwise members further on are never "
+                "reached and are reported as not valid" % (
+                    txt, " and ".join(("" if pol else "not ") + U(t)
+                                      for t, pol in (bad[0] if bad else []))
+                    [:100]), P13)
+        # an unbounded series must have its exit, or the scan never ends
+        if not n_exits:
+            rep.undecided(rule, ctx.fkey(f, None, "early-exit"), f.loc(),
+                          "get_is_valid has no early exit inside its scan "
+                          "(an unbounded recurrence is then scanned for "
+                          "ever): not decided here", P13)
 
 RULES = {"R18": r18_rec_state, "R19": r19_rec_bounds}
